@@ -394,12 +394,28 @@ class Wtp:
             temp_file.close()
 
         if self.backup_db_path.exists():
-            self.db_path.unlink(True)
-            # The write-ahead log belongs to the file being replaced; left in
-            # place it would be replayed over the restored database.
-            for suffix in ("-wal", "-shm"):
-                Path(str(self.db_path) + suffix).unlink(True)
-            self.backup_db_path.rename(self.db_path)
+            # Worker processes may open the same path at the same moment:
+            # exactly one of them restores, the others wait for it.  An
+            # exclusive transaction on a side file is the (portable) mutex;
+            # it is released by the system if the holder dies.
+            lock_conn = sqlite3.connect(
+                str(self.db_path) + "-restore-lock",
+                timeout=60,
+                isolation_level=None,
+            )
+            try:
+                lock_conn.execute("BEGIN EXCLUSIVE")
+                if self.backup_db_path.exists():
+                    self.db_path.unlink(True)
+                    # The write-ahead log belongs to the file being
+                    # replaced; left in place it would be replayed over the
+                    # restored database.
+                    for suffix in ("-wal", "-shm"):
+                        Path(str(self.db_path) + suffix).unlink(True)
+                    self.backup_db_path.rename(self.db_path)
+                lock_conn.execute("COMMIT")
+            finally:
+                lock_conn.close()
 
         self.db_conn = sqlite3.connect(self.db_path, check_same_thread=False)
         self.db_conn.executescript(
